@@ -36,6 +36,7 @@ type node struct {
 	elems  []sval          // arrays
 	kv     map[hx.TV]sval  // maps
 	live   bool            // not disposed
+	ty     uint64          // type info given at creation
 }
 
 type nestEnv struct {
@@ -115,19 +116,25 @@ func (n *node) value(wrap int) atree.Value {
 
 func (e *nestEnv) newNode(kind byte) *node {
 	n := &node{h: len(e.nodes), kind: kind, live: true}
+	// most containers draw their type from a small set so that sibling inlined children repeat
+	// type infos in arbitrary order (the encoder then emits type-info references, C07)
+	n.ty = uint64(10 + n.h)
+	if e.rng.Intn(5) != 0 {
+		n.ty = uint64(43 + e.rng.Intn(3))
+	}
 	var err error
 	if kind == 'a' {
-		n.arr, err = atree.NewArray(e.rec, e.addr, hx.TI(uint64(10+n.h)))
+		n.arr, err = atree.NewArray(e.rec, e.addr, hx.TI(n.ty))
 		if err == nil {
 			n.vid = n.arr.ValueID().String()
-			e.w.L("WNEW h=%d kind=a addr=%d ty=%d", n.h, e.addr[7], 10+n.h)
+			e.w.L("WNEW h=%d kind=a addr=%d ty=%d", n.h, e.addr[7], n.ty)
 		}
 	} else {
-		n.mp, err = atree.NewMap(e.rec, e.addr, atree.NewDefaultDigesterBuilder(), hx.TI(uint64(10+n.h)))
+		n.mp, err = atree.NewMap(e.rec, e.addr, atree.NewDefaultDigesterBuilder(), hx.TI(n.ty))
 		n.kv = map[hx.TV]sval{}
 		if err == nil {
 			n.vid = n.mp.ValueID().String()
-			e.w.L("WNEW h=%d kind=m addr=%d ty=%d L=4 climit=255 seed=%d", n.h, e.addr[7], 10+n.h, n.mp.Seed())
+			e.w.L("WNEW h=%d kind=m addr=%d ty=%d L=4 climit=255 seed=%d", n.h, e.addr[7], n.ty, n.mp.Seed())
 		}
 	}
 	if err != nil {
@@ -720,6 +727,10 @@ func (e *nestEnv) compareArray(path string, a *atree.Array, c *node) bool {
 		e.violation("C10", fmt.Sprintf("%s: value ID %s, expected %s", path, a.ValueID(), c.vid))
 		return false
 	}
+	if a.Type() != atree.TypeInfo(hx.TI(c.ty)) {
+		e.violation("C07", fmt.Sprintf("%s (container %d): type info %v read back, %d was given at creation", path, c.h, a.Type(), c.ty))
+		return false
+	}
 	if a.Count() != uint64(len(c.elems)) {
 		e.violation("C10", fmt.Sprintf("%s (container %d): %d elements read through the parent, %d expected", path, c.h, a.Count(), len(c.elems)))
 		return false
@@ -740,6 +751,10 @@ func (e *nestEnv) compareArray(path string, a *atree.Array, c *node) bool {
 func (e *nestEnv) compareMap(path string, m *atree.OrderedMap, c *node) bool {
 	if m.ValueID().String() != c.vid {
 		e.violation("C10", fmt.Sprintf("%s: value ID %s, expected %s", path, m.ValueID(), c.vid))
+		return false
+	}
+	if m.Type() != atree.TypeInfo(hx.TI(c.ty)) {
+		e.violation("C07", fmt.Sprintf("%s (container %d): type info %v read back, %d was given at creation", path, c.h, m.Type(), c.ty))
 		return false
 	}
 	if m.Count() != uint64(len(c.kv)) {
